@@ -19,11 +19,68 @@ from fractions import Fraction as F
 from .. import common as cm
 
 PROP = 'C13'
-THEOREMS = []
-PARTIAL = {}
-RULE = ''
-ASSUMPTIONS = []
-TRUSTED = []
+THEOREMS = [
+    'C13.shift_between_planes', 'C13.shifts_complete',
+    'C13.sizes_even_symmetric', 'C13.sizes_refuses_odd',
+    'C13.reference_is_shifted_crystal', 'C13.monopole_keeps_atoms', 'C13.monopole_pbc',
+    'C13.boundary_iff_outside_box', 'C13.boundary_iff_outside_cylinder', 'C13.boundary_zero_width',
+    'C13.uvws_zone_law', 'C13.uvws_right_handed',
+    'C13.linear_field_change', 'C13.linear_field_one_burgers',
+    'C13.array_old_id', 'C13.array_deletion_count_partial', 'C13.tilted_det', 'C13.expected_edge_orthogonal',
+]
+PARTIAL = {
+    'array deletion count': 'array_deletion_count_partial proves that an accepted array has removed exactly `expected` atoms '
+    'with |natoms(1 - V\'/V) - expected| <= 1e-8 + 1e-5 |expected| (the code\'s own isclose test) and tilted_det / '
+    'expected_edge_orthogonal that natoms(1 - V\'/V) = natoms |b.m| / (2 L_m) for an orthogonal box; that the number of '
+    'geometric duplicates found by the distance test equals this number is the guard `found == expected` of the code, '
+    'not a theorem about the lattice (it fails for cells shorter than a few Burgers vectors, where the code refuses)',
+    'no overlapping atoms across the periodic directions': 'not a theorem: it depends on the lattice being commensurate with '
+    'the tilted cell and on the duplicate cutoff; evaluated on the real results by the oracle (all pairs through a periodic '
+    'image, threshold min(cutoff, 0.45 nearest-neighbour distance))',
+    'disregistry accumulates to b': 'proved for the linear field (linear_field_one_burgers: exactly b from face to face, '
+    'linear_field_change in between); for the elastic field it is C12.burgers_closure up to the tail beyond the finite '
+    'width, which is only bounded numerically here: |error| <= 6 |b| (h/(pi X_left) + h/(pi X_right)) + 0.02 |b| '
+    '(+ 0.1 |b| for arrays), h the half spacing of the planes adjoining the slip plane, X the distance of the outermost '
+    'atomic columns from the core',
+    'uvws search optimality': 'uvws_zone_law / uvws_right_handed prove that the selected in-plane vector obeys the zone law, '
+    'makes an acute angle with m, the out-of-plane one an acute angle with n, and that all six row orders are right handed; '
+    'that the selected vectors are the candidates of *smallest* angle is not stated as a theorem (the correspondence and the '
+    'relational driver op `cellsvalid` check it case by case)',
+    'rotation of the cell': 'System.rotate / normalize (C04, C05) and conventional_to_primitive are not re-modelled here: the '
+    'rotated cell enters the monopole / array model as data; the oracle checks on the real results that rcell is ucell\'s '
+    'crystal (every atom on a lattice site of its type, det(uvws) natoms atoms) and that rcell.box.vects = uvws . '
+    'ucell.vects . transform^T',
+}
+RULE = ('crystals built from literal fractional coordinates: fcc (setting f and p), L1_2, bcc (i and p), B2, simple cubic, hcp, '
+        'body-centred tetragonal, c-centred orthorhombic, lattice parameters fixed or drawn to 3 decimals; slip systems: slip '
+        'planes |h|,|k|,|l| <= bound (quick 1, thorough 2), line directions with the same bound lying in the plane, Burgers '
+        'vectors among the two shortest classes of lattice vectors of the plane, one system per character (screw / edge / '
+        'mixed) per plane, plus 15 standard systems (fcc {111}, bcc {110} and {112}, hcp basal / prismatic / pyramidal, ...); '
+        'every m/n axis assignment (all six for the standard systems in the search, a random one otherwise); 3- and 4-index '
+        'input for hcp; configurations: sizemults None / even / odd / zero / negative, list or tuple, amin/bmin/cmin, '
+        'shiftindex (also negative), explicit shift (Cartesian or box-relative, also one that leaves atoms on the slip '
+        'plane), centre (Cartesian or box-relative, also off the slip plane and along the line), boundary box / cylinder, '
+        'widths 0 .. 3.5 (also relative to a, also larger than the system), linear or elastic arrays, cutoffs 0.2 .. 1.2. '
+        'distinct = distinct (crystal, lattice parameters, slip system, m, n, configuration); non-trivial = the generator '
+        'returned a system (refusals are counted separately)')
+ASSUMPTIONS = [
+    'numpy.floor, numpy.linalg.norm / sqrt and the elastic solver are parameters of the model (fl, sqrt, u): the theorems hold '
+    'for every u; the driver uses Rat.floor, a 2^-160 rational square root and the table of the real solver\'s values',
+    'the angle comparisons of __set_cells (vect_angle + isclose) are modelled by sign-aware comparisons of squared cosines '
+    'and isclose(angle, 90) by an exact zero of the dot product; cases the model flags as near ties (relative 1e-9 on '
+    'squared cosines) are decided by the relational check `cellsvalid` instead of exact equality',
+    'positions are compared to 1e-9 x (largest box entry); an atom whose scaled coordinate is within 1e-7 of a periodic '
+    'face may sit on the opposite face (float floor), an outermost atom within 1e-9 of a free face may or may not trigger '
+    'the padding of System.wrap, a boundary / duplicate / surface-layer decision within 1e-7 (relative) of its threshold '
+    'is exempt; all such exemptions are counted in the evidence (exempt_near)',
+    'the Box.vects setter zeroes entries below 1e-9 of the largest one: the alignment refusal is modelled with that relative '
+    'bound on squared quantities',
+    'ceil(amin / a), boundarywidth * ucell.a and center . rcell.vects are computed by the harness with the same float '
+    'expressions as the code and passed to the model',
+]
+TRUSTED = ['numpy array arithmetic in the implementation run', 'the elastic solver (C12) as a black box supplying u',
+           'System.supersize / System.wrap models of C04 / C05 (imported definitions, re-tied here through the reference and '
+           'dislocation systems)', 'harness-side float recomputation of the decision margins']
 
 AXES = ('x', 'y', 'z')
 MN = [(m, n) for m in AXES for n in AXES if m != n]
@@ -1521,7 +1578,25 @@ def replay(ctx, payload):
 
 
 MANIFEST = {
-    'text': 'placeholder',
-    'note': 'placeholder',
+    'text': 'Lean 4 model of atomman.defect.Dislocation: choice of the three integer cell vectors (in-plane / out-of-plane '
+            'searches as folds over product(range(-5,6)), gcd reduction, the six row orders, the alignment refusal), '
+            'mid-plane shifts, multiplier handling, reference system = C04.supersize + shift + C05.wrap, monopole (pos + '
+            'u(pos - center), pbc along the line, wrap, box / cylinder boundary re-typing in squared form) and periodic '
+            'array (face atoms, slip-plane refusal, tilt by -+b/2, linear field, duplicate detection with the shared dvect '
+            'model, expected-count test, old_id, blending, boundary). Proved for every ordered field and every '
+            'displacement field u: shifts put the slip plane midway between consecutive atomic planes; multipliers even and '
+            'symmetric across the line; the reference system is the shifted crystal (count, order, types, lattice '
+            'translations); the monopole keeps every atom with pos\' = pos + u(pos - center) modulo the line vector only, is '
+            'periodic along the line only, and re-types exactly the atoms outside the region; selected cell vectors obey the '
+            'zone law and are right handed in all six orders; the linear field accumulates exactly one Burgers vector; '
+            'old_id maps every remaining atom of an array to its reference atom; the deletion count equals the count '
+            'implied by the volume change (partial). Tied to the code by a differential run on fcc/bcc/hcp/... cells and '
+            'slip systems; the clauses (also overlap-freeness and disregistry) are evaluated on the real results by an '
+            'independent oracle.',
+    'note': 'Trusted: Lean kernel + propext/Classical.choice/Quot.sound; the correspondence harness; the elastic solver as '
+            'the supplier of u; the C04/C05 models of supersize/wrap. Partial: deletion count (guard of the code, edge '
+            'formula for orthogonal boxes), overlap-freeness and the elastic disregistry (oracle only, stated tail bound). '
+            'Four genuine defects were found and fixed in /repo (orientation sign for negative xi axes, missing alignment '
+            'refusal, face atoms scattered by rounding in periodic arrays, tuple sizemults / mutated caller list).',
     'technique': 'Lean 4 theorems over a hand-written model + differential correspondence + clause oracle on the real code',
 }
